@@ -101,7 +101,9 @@ class C02(core.Check):
             'called on real numbers.Integer objects / values.* functions with the real error handler in hard and '
             'soft mode; list cases: Integer/Single/Double/String operands (floats dense around +-32767.5, '
             '+-32768.5, 65535); for cases: real Interpreter.iterate_loop on a crafted FOR record; basic/forprog '
-            'cases: PRINT a op b and FOR..NEXT programs through a real Session. thorough: all 65536 values for '
+            'cases: PRINT a op b and FOR..NEXT programs through a real Session; forstack: real iterate_loop on FOR stacks '
+            'with stale records of the same FOR / other loops / two variables; forhist: BASIC programs whose FOR is left '
+            'with GOTO and entered again with other start/limit/step. thorough: all 65536 values for '
             'NOT/ineg/iabs, stratified grids for every binary operator. non-trivial = at least one non-error '
             'result in the case; distinct by hash of (case, output)')
     histogram = None
@@ -203,6 +205,16 @@ class C02(core.Check):
             {'k': 'grid', 'op': OP['iadd'], 'hard': 1, 'xs': [m, 0x8001, 0xffff, 0x7fff, 0], 'ys': [0xffff, m, 1, 0x7fff]},
             {'k': 'for', 'q': [[m, 0xffff, m, -1], [0x7fff, 1, 0x7fff, 1], [0x7ffe, 1, 0x7fff, 1], [m + 1, 0xffff, m, -1]]},
             {'k': 'forprog', 'q': [[-32768, -1, -32768], [32767, 1, 32767], [32766, 1, 32767], [-32767, -1, -32768]]},
+            # seeded C02d: a FOR left with GOTO and entered again with another STEP/limit - NEXT must use the
+            # step of the loop that is running (newest record), not a stale one
+            {'k': 'forhist', 'q': [[[1, 20003, 20000, 0], [20000, 20003, 1, 0]],
+                                   [[1, 20005, 1, 0], [20000, 20005, 20000, 0]],
+                                   [[1, 100, 7, 0], [10, 1, -3, 0]],
+                                   [[1, 5, 1, 2], [32760, 32767, 5, 1], [-5, -32768, -32000, 0]]]},
+            {'k': 'forstack', 'q': [[[[0, 20003, 20000, 1, 1], [0, 20003, 1, 1, 1]], -1, 20000, 0],
+                                    [[[0, 20005, 1, 1, 1], [0, 20005, 20000, 1, 1]], -1, 20000, 0],
+                                    [[[0, 100, 7, 1, 1], [1, 9, 1, 1, 0], [0, 1, 65533, -1, 1], [1, 5, 1, 1, 0]], 0, 10, 3],
+                                    [[[0, 5, 1, 1, 0]], -1, 1, 1], [[[0, 5, 1, 1, 1]], 1, 1, 1]]},
             # D02b: IMP with a string on the right
             {'k': 'list', 'op': OP['imp'], 'hard': 1, 'p': [[[0, 1], [2]], [[2], [0, 1]], [[2], [2]]]},
             {'k': 'basic', 'hard': 0, 'e': [['imp', ['n', 1], ['s']], ['and', ['n', 1], ['s']], ['imp', ['s'], ['n', 1]]]},
@@ -356,8 +368,64 @@ class C02(core.Check):
                 q.append([c, st, stop])
             out.append({'k': 'forprog', 'q': q})
             hist['for_program'] += 25
+        # which record a NEXT uses: real iterate_loop on stacks holding stale records of the same FOR (loops left
+        # by GOTO and entered again), records of other loops, two variables, named and bare NEXT
+        nfs = 40 if thorough else 5
+        hist['for_stack_direct'] = 0
+        hist['for_stack_stale_records'] = 0
+        for i in range(nfs):
+            q = []
+            for _ in range(60):
+                recs = []
+                for _ in range(rng.choice([1, 2, 2, 3, 3, 4, 5])):
+                    st = pat(rng.choice([1, -1, 2, -3, 7, 100, -100, 20000, -20000, 32767, -32768, signed(self.rpat())]))
+                    sg = signed(st)
+                    recs.append([rng.choice([0, 0, 0, 1]), self.rpat(), st, (sg > 0) - (sg < 0),
+                                 1 if rng.random() < 0.7 else 0])
+                nm = sum(r[4] for r in recs)
+                hist['for_stack_stale_records'] += max(0, nm - 1)
+                q.append([recs, rng.choice([-1, -1, -1, 0, 1]), self.rpat(), self.rpat()])
+            out.append({'k': 'forstack', 'q': q})
+            hist['for_stack_direct'] += 60
+        # the same through BASIC programs: one FOR statement entered several times with different start/limit/step
+        nfh = 24 if thorough else 4
+        hist['for_reentered_programs'] = 0
+        for i in range(nfh):
+            q = []
+            for _ in range(12):
+                q.append(self.rhist())
+            out.append({'k': 'forhist', 'q': q})
+            hist['for_reentered_programs'] += 12
         self.histogram = hist
         return out
+
+    def rhist(self):
+        """entries (start, limit, step, passes before leaving) of a re-entered FOR; every loop is non-empty"""
+        rng = self.rng
+        es = []
+        for _ in range(rng.choice([1, 2, 2, 2, 3, 3, 4])):
+            st = rng.choice([1, -1, 2, -3, 5, 7, 100, -100, 20000, -20000, 32767, -32768,
+                             rng.randrange(1, 32768), -rng.randrange(1, 32769)])
+            r = rng.random()
+            if r < 0.4:
+                # near the end of the range in the direction of travel: Overflow or a close finish
+                edge = 32767 if st > 0 else -32768
+                a = edge - st * rng.randrange(0, 4) - (rng.randrange(0, 3) if st > 0 else -rng.randrange(0, 3))
+            elif r < 0.7:
+                a = rng.choice([1, 0, -1, 10, 20000, -20000, 100])
+            else:
+                a = signed(self.rpat())
+            a = max(-32768, min(32767, a))
+            r = rng.random()
+            if r < 0.35:
+                b = 32767 if st > 0 else -32768
+            else:
+                b = a + st * rng.randrange(0, 9) + rng.randrange(-1, 2)
+            b = max(-32768, min(32767, b))
+            if (st > 0 and b < a) or (st < 0 and b > a):
+                b = a
+            es.append([a, b, st, rng.choice([0, 0, 1, 2])])
+        return es
 
     def basic_operand(self):
         rng = self.rng
@@ -404,7 +472,92 @@ class C02(core.Check):
                 return self.impl_basic(case)
             if k == 'forprog':
                 return self.impl_forprog(case)
+            if k == 'forstack':
+                return self.impl_forstack(case)
+            if k == 'forhist':
+                return self.impl_forhist(case)
         raise ValueError(k)
+
+    def impl_forstack(self, case):
+        """real Interpreter.iterate_loop on a FOR stack with several records"""
+        s = self.sess()
+        it = s._impl.interpreter
+        names = [b'I%', b'J%']
+        if not self.__dict__.get('_jdef'):
+            s.execute('J%=0')
+            self._jdef = True
+        out = []
+        for recs, vname, c0, c1 in case['q']:
+            for nm, c in zip(names, (c0, c1)):
+                s._impl.scalars.view(nm).from_bytes(bytes([c & 0xff, c >> 8]))
+            pos = it.get_codestream().tell()
+            it.for_stack = [(names[v], self.mk([0, stop]), self.mk([0, st]), sgn, pos, pos if match else pos + 1000 + j)
+                            for j, (v, stop, st, sgn, match) in enumerate(recs)]
+            before = [bytes(s._impl.scalars.view(nm).to_bytes()) for nm in names]
+            try:
+                cont = it.iterate_loop(None if vname < 0 else names[vname])
+                after = [bytes(s._impl.scalars.view(nm).to_bytes()) for nm in names]
+                changed = [j for j in (0, 1) if after[j] != before[j]]
+                # the variable of the record used: the one that changed, else the top record's
+                top = it.for_stack[-1][0] if (cont and it.for_stack) else None
+                if len(changed) == 1:
+                    v = changed[0]
+                elif len(changed) == 0:
+                    v = names.index(top) if top is not None else self._unchanged_var(recs, vname)
+                else:
+                    out += [2, 15]
+                    continue
+                out += [0, v] + list(after[v]) + [0 if cont else 1, len(it.for_stack)]
+            except Exception as e:
+                out += common.canon_exc(e)
+            finally:
+                it.for_stack = []
+        return out
+
+    @staticmethod
+    def _unchanged_var(recs, vname):
+        # step 0 and the loop ended: the record is gone; name the variable of the newest matching record
+        for v, stop, st, sgn, match in reversed(recs):
+            if match:
+                return v
+        return 0
+
+    FORHIST = ('10 ON ERROR GOTO 90\r30 READ A%,B%,S%,Q%:K%=K%+1:P%=0\r40 FOR I%=A% TO B% STEP S%\r'
+               '50 IF K%<N% THEN P%=P%+1:IF P%>Q% THEN 30\r'
+               '55 IF K%=N% THEN PRINT I%;:M%=M%+1:IF M%>=6 THEN PRINT "M":END\r60 NEXT\r'
+               '70 PRINT "E";I%:END\r90 PRINT "X";ERR;I%:END')
+
+    def impl_forhist(self, case):
+        """one FOR statement executed once per entry (left with GOTO, entered again), observed by its printout"""
+        import re
+        s = self.basic_session(True)
+        s.execute('NEW')
+        s.execute(self.FORHIST)
+        out = []
+        for es in case['q']:
+            try:
+                s.execute('20 K%%=0:M%%=0:N%%=%d' % len(es))
+                s.execute('100 DATA ' + ','.join('%d,%d,%d,%d' % tuple(e) for e in es))
+                text = s.execute('RUN')
+                if isinstance(text, bytes):
+                    text = text.decode('latin-1')
+                toks = re.findall(r'[A-Za-z]+|-?\d+', text)
+                code = {'M': 1000001, 'E': 1000002, 'X': 1000003}
+                for t in toks:
+                    if t in code:
+                        out.append(code[t])
+                    elif re.match(r'-?\d+$', t):
+                        out.append(int(t))
+                    else:
+                        out.append(1000005)
+                out.append(1000000)
+            except Exception as e:
+                out += common.canon_exc(e) + [1000000]
+                self.drop_session(True)
+                s = self.basic_session(True)
+                s.execute(self.FORHIST)
+        s.execute('NEW')
+        return out
 
     def impl_for(self, case):
         s = self.sess()
@@ -605,6 +758,19 @@ class C02(core.Check):
                 parts.append('run_list %d %s [(%s, %s)]' % (OP[name], 'true' if case['hard'] else 'false',
                                                             ops[0], ops[1]))
             return '(' + ' ++ '.join(parts) + ')' if parts else '[]'
+        if k == 'forstack':
+            zz = lambda v: '(%d)' % v if v < 0 else '%d' % v
+            items = []
+            for recs, vname, c0, c1 in case['q']:
+                rs = ['(((%d, %d), (%d, %s)), %s)' % (v, stop, st, zz(sgn), '0' if match else '%d' % (1000 + j))
+                      for j, (v, stop, st, sgn, match) in enumerate(recs)]
+                items.append('(([%s], (0, %s)), (%d, %d))' % ('; '.join(rs), zz(vname), c0, c1))
+            return 'run_nexts [%s]' % '; '.join(items)
+        if k == 'forhist':
+            zz = lambda v: '(%d)' % v if v < 0 else '%d' % v
+            items = ['[%s]' % '; '.join('((%s, %s), (%s, %s))' % tuple(zz(x) for x in e) for e in es)
+                     for es in case['q']]
+            return 'run_hists [%s]' % '; '.join(items)
         if k == 'forprog':
             items = []
             for c, st, stop in case['q']:
@@ -669,9 +835,59 @@ class C02(core.Check):
         ends = a > signed(stop) if sgn >= 0 else signed(stop) > a
         return [0] + enc(a) + [int(ends)]
 
+    @staticmethod
+    def ref_forstack(recs, vname, c0, c1):
+        """NEXT iterates the loop that is running: the newest record belonging to this NEXT"""
+        idx = None
+        for j in range(len(recs) - 1, -1, -1):
+            if recs[j][4]:
+                idx = j
+                break
+        if idx is None:
+            return [1, 1]
+        v, stop, st, sgn, _ = recs[idx]
+        if vname >= 0 and vname != v:
+            return [1, 1]
+        z = signed((c0, c1)[v]) + signed(st)
+        if not in16(z):
+            return [1, 6]
+        ends = z > signed(stop) if sgn >= 0 else signed(stop) > z
+        return [0, v] + enc(z) + [int(ends), idx if ends else idx + 1]
+
+    @staticmethod
+    def ref_forhist(es):
+        """the printout of program FORHIST when every NEXT adds the step of the loop entered last"""
+        out = []
+        n = len(es)
+        m = 0
+        for k, (a, b, st, q) in enumerate(es, 1):
+            i = a
+            p = 0
+            while True:
+                if k < n:
+                    p += 1
+                    if p > q:
+                        break
+                if k == n:
+                    out.append(i)
+                    m += 1
+                    if m >= 6:
+                        return out + [1000001, 1000000]
+                z = i + st
+                if not in16(z):
+                    return out + [1000003, 6, i, 1000000]
+                i = z
+                if (z > b) if st >= 0 else (b > z):
+                    return out + [1000002, i, 1000000]
+        return out + [1000007, 1000000]
+
     def expected(self, case):
         k = case['k']
         exp = []
+        if k == 'forstack':
+            return [self.ref_forstack(*item) for item in case['q']]
+        if k == 'forhist':
+            return [self.ref_forhist(es) for es in case['q']]
         if k == 'grid':
             for x in case['xs']:
                 for y in case['ys']:
@@ -700,6 +916,10 @@ class C02(core.Check):
             return '%s%r' % (OPS[case['op']], case['p'][i])
         if k in ('for', 'forprog'):
             return 'FOR step (counter, step, stop[, sgn]) = %r' % (case['q'][i],)
+        if k == 'forstack':
+            return 'NEXT on FOR stack (records [var, stop, step, sgn, is-this-NEXT] oldest first, named var, I%%, J%%) = %r' % (case['q'][i],)
+        if k == 'forhist':
+            return 're-entered FOR, entries (start, limit, step, passes before GOTO) = %r' % (case['q'][i],)
         return '%r' % (case['e'][i],)
 
     def oracle(self, case, out):
@@ -717,6 +937,8 @@ class C02(core.Check):
         return None
 
     def nontrivial(self, case, out):
+        if case['k'] == 'forhist':
+            return any(len(e) > 3 for e in self.expected(case))
         return len(out) > 0 and any(e[0] == 0 for e in self.expected(case))
 
     def shrink_candidates(self, case):
